@@ -1,3 +1,4 @@
+import BoolFn.Proofs.Oracle3
 import BoolFn.Proofs.NormalFormShape
 /-! # C11 — Normal-form conversions preserve the function and produce the promised shape
 
